@@ -35,7 +35,8 @@ LEVEL_TEXT = (
     "temperature), Fan, Cover (position / up-down / angle incl. invert flags, with and without a position address), Climate (target temperature, setpoint "
     "shift DPT 6.010 / 9.002 / auto-detected with steps 0.05..1 and ranges, on/off invert, fan speed, swing), ClimateMode (all address subsets), "
     "NumericValue / ExposeSensor over DPT choices, Notification, RawValue, Scene, Time/Date/DateTime devices and a RemoteValueScaling with generated "
-    "ranges; per row quick 20 generated configurations x 24 setter calls (thorough 60 x 40, 16 shards; NumericValue/ExposeSensor: one configuration per DPT class x 2 resp. 6 repetitions). Exploration: configurations and values are sampled."
+    "ranges; every configuration additionally draws a GA->DPT table for the device's addresses (none / the remote value's own DPT / a parent or child "
+    "class of it / an unrelated DPT, installed through xknx.group_address_dpt.set) with an unchanged oracle; per row quick 20 generated configurations x 24 setter calls (thorough 60 x 40, 16 shards; NumericValue/ExposeSensor: one configuration per DPT class x 2 resp. 6 repetitions). Exploration: configurations and values are sampled."
 )
 LEVEL_NOTE = (
     "Trusted: virtual loop, fake interface (confirms at once), clock shim for Cover travel. Judged: the public state property named in the row, right after the "
@@ -1124,6 +1125,60 @@ class RScalingProbe(Row):
         return [("value", dev.remote_value.value, op[1], scaling_rep(cfg["range_from"], cfg["range_to"]))]
 
 
+GA_DPT_MODES = ("none", "own", "relative", "unrelated")
+
+
+def install_ga_dpt_table(ctx, h: DevHarness, dev, table_cfg: dict) -> None:
+    """Fill `xknx.group_address_dpt` for the device's addresses (public API).  The oracle does not change: whatever the
+    table says, the device must report what was requested (C38: the table never changes what devices see)."""
+    mode = table_cfg.get("mode", "none")
+    ctx.count("ga_dpt_table_" + mode)
+    if mode == "none":
+        return
+    from xknx.dpt import DPTBase, DPTSwitch
+
+    rng = random.Random(table_cfg.get("seed", 0))
+    pool = numeric_classes()
+    table = {}
+    devices = [dev] + ([dev.mode] if getattr(dev, "mode", None) is not None and hasattr(dev.mode, "_iter_remote_values") else [])
+    for d in devices:
+        for rv in d._iter_remote_values():
+            own = getattr(rv, "dpt_class", None)
+            if not (isinstance(own, type) and issubclass(own, DPTBase)):
+                own = getattr(rv, "_internal_dpt_class", None)
+            if not (isinstance(own, type) and issubclass(own, DPTBase)):
+                own = None
+            choice = None
+            if mode == "own":
+                choice = own
+            elif mode == "relative" and own is not None:
+                parents = [c for c in own.__mro__[1:] if isinstance(c, type) and issubclass(c, DPTBase)
+                           and getattr(c, "dpt_main_number", None) is not None and getattr(c, "payload_length", None) is not None]
+                children = [c for c in pool + [DPTSwitch] if c is not own and issubclass(c, own)]
+
+                def walk(c, acc):
+                    for sub in c.__subclasses__():
+                        if getattr(sub, "dpt_main_number", None) is not None:
+                            acc.append(sub)
+                        walk(sub, acc)
+                    return acc
+
+                children = walk(own, [])
+                cands = parents[:1] + children
+                if cands:
+                    choice = rng.choice(cands)
+                    ctx.count("ga_dpt_relative_parent" if choice in parents else "ga_dpt_relative_child")
+            if choice is None and mode in ("unrelated", "relative"):
+                choice = rng.choice(pool) if rng.random() < 0.8 else DPTSwitch
+            if choice is None:
+                continue
+            for ga in rv.group_addresses():
+                table[ga] = {"main": choice.dpt_main_number, "sub": choice.dpt_sub_number}
+    if table:
+        h.xknx.group_address_dpt.set(table)
+        ctx.count("ga_dpt_entries_installed", sum(1 for ga in table if h.xknx.group_address_dpt.get(ga) is not None))
+
+
 def rows():
     return [RSwitch(), RLightBasic(), RLightColor(), RLightHS(), RLightXYY(), RLightColorTemp(), RFan(), RCover(), RClimateTarget(),
             RClimateShift(), RClimateMisc(), RClimateMode(), RNumeric("NumericValue"), RNumeric("ExposeSensor"), RExposeOther(),
@@ -1193,6 +1248,7 @@ def run_config(ctx, row: Row, cfg: dict, ops: list | None, seed_key: str, n_valu
     async def scenario() -> None:
         await h.start()
         dev = await row.build(h, cfg)
+        install_ga_dpt_table(ctx, h, dev, cfg.get("ga_dpt", {}))
         rng = random.Random(seed_key)
         the_ops = ops if ops is not None else row.gen_ops(rng, cfg, dev, n_values)
         for op in the_ops:
@@ -1241,15 +1297,18 @@ def run(ctx):
     ctx.require("setter_calls", "telegrams_looped_back", "judged_exact", "judged_representable", "judged_between",
                 "calls[Climate.set_setpoint_shift]", "calls[Climate.set_target_temperature]", "calls[Cover.set_position]",
                 "calls[Switch.set_on]", "calls[Light.set_brightness]", "calls[Fan.set_speed]", "calls[ClimateMode.set_operation_mode]",
-                "calls[NumericValue.set]")
+                "calls[NumericValue.set]", "ga_dpt_table_own", "ga_dpt_table_relative", "ga_dpt_table_unrelated", "ga_dpt_table_none",
+                "ga_dpt_relative_parent", "ga_dpt_relative_child", "ga_dpt_entries_installed")
     n_cfg = ctx.scale(20, 60)
     n_val = ctx.scale(24, 40)
     item = 0
     for row in rows():
         if isinstance(row, RNumeric):
             cfgs = [{"dpt": c.__name__, "value_type": c.value_type} for c in row.classes(ctx)]
-            reps = ctx.scale(2, 6)
-            cfgs = [dict(c, rep=i) for c in cfgs for i in range(reps)]
+            reps = ctx.scale(3, 8)
+            # every DPT class meets every kind of table entry: own type, parent/child class, unrelated type (and none in thorough)
+            order = ("relative", "own", "unrelated", "none")
+            cfgs = [dict(c, rep=i, ga_dpt={"mode": order[i % 4], "seed": i}) for c in cfgs for i in range(reps)]
         else:
             count = max(1, int(n_cfg * (row.n_cfg_factor or 1)))
             cfgs = None
@@ -1261,6 +1320,8 @@ def run(ctx):
             key = f"C39/{ctx.seed}/{type(row).__name__}/{row.name}/{ci}"
             rng = random.Random(key)
             cfg = cfgs[ci] if cfgs is not None else row.gen_cfg(rng, ctx)
+            if "ga_dpt" not in cfg:
+                cfg["ga_dpt"] = {"mode": GA_DPT_MODES[ci % 4], "seed": rng.randint(0, 10**6)}
             run_config(ctx, row, cfg, None, key + "/ops", n_val)
             ctx.count("configurations")
             if len(ctx.samples) < 5 and ci == 0:
